@@ -14,6 +14,16 @@ pub fn ascii_id(p: &mut Prng, len: usize) -> String {
     (0..len).map(|_| (0x21 + p.below(94) as u8) as char).collect()
 }
 
+/// IDs are `&str`: the standard hashes their UTF-8 BYTES (ENTL = bit length of the bytes); mix 1..4-byte characters
+pub fn utf8_id(p: &mut Prng, nchars: usize) -> String {
+    const PAL: [&str; 12] = ["a", "Z", "7", "@", "é", "ß", "Ж", "张", "三", "鲍", "😀", "𝔘"];
+    let mut s = String::new();
+    for _ in 0..nchars {
+        s.push_str(PAL[p.below(PAL.len() as u64) as usize]);
+    }
+    s
+}
+
 /// Private keys worth trying: small, near n, sparse / dense limbs, random.
 pub fn edge_keys() -> Vec<BigUint> {
     let n = &r2::curve().n;
